@@ -59,7 +59,9 @@ def operand_rule(ctx, rule, p, targets):
                     or (f.name == "__setitem__" and w.root == "self"):
                 tolerated.append(w)
                 continue
-            if opt_in(w, f):
+            if opt_in(w, f) and w.kind != "buffer-store":
+                # an opt-in mutator may rebind the variables of its own object; an in-place update of the stored arrays also changes
+                # every spectrum that shares the buffer (the objects it was sliced from), which never opted in
                 tolerated.append(w)
                 continue
             bad.append(w)
